@@ -4,6 +4,7 @@ import (
 	"io/ioutil"
 	"math"
 	"math/rand"
+	"os"
 	"sort"
 	"time"
 
@@ -34,7 +35,7 @@ func (c03) Meta() fw.Meta {
 			"'supplied last' = greatest (timestamp, supply index) among the points of one slot (batches are time-ordered first; DESIGN.md section 1.5)",
 			"future-dated points in batches are outside the property's quantifier and are not generated",
 		},
-		Obligations: []string{"single_accept_at_boundary", "single_reject_at_boundary", "single_reject_future", "batch_one_stale_plus_fresh", "batch_only_old", "batch_equal_timestamp_dups", "batch_multi_ts_same_slot", "batch_lap_collision", "batch_dropped_points", "batch_stored_points", "permutation_twins_compared", "best_routed_to_coarser", "empty_batch", "wrapper_update_calls", "wrapper_updatemany_calls", "batch_ancient_points", "batch_nan_valued_points_stored"},
+		Obligations: []string{"single_accept_at_boundary", "single_reject_at_boundary", "single_reject_future", "batch_one_stale_plus_fresh", "batch_only_old", "batch_equal_timestamp_dups", "batch_multi_ts_same_slot", "batch_lap_collision", "batch_dropped_points", "batch_stored_points", "permutation_twins_compared", "best_routed_to_coarser", "empty_batch", "wrapper_update_calls", "wrapper_updatemany_calls", "batch_ancient_points", "batch_nan_valued_points_stored", "identical_update_resent_after_clock_advance", "files_replaced_by_another_layout"},
 	}
 }
 
@@ -174,6 +175,48 @@ func (c03) Run(c *fw.Ctx) {
 					return
 				}
 			}
+		}
+	}
+
+	// ---- (a2) the same update sent again after the clock moved on: routing is decided by the age AT THE CALL, so the
+	// resent point (now older than the finest retention) belongs to the coarser archive
+	if k >= 2 && !c.Violated() {
+		a0 := l.Archs[0]
+		t := s.now - int64(r.Intn(int(minI64(a0.Ret()-1, 5))+1))
+		v := wt.Value(31337.5 + float64(r.Intn(100)))
+		if err := s.db.UpdatePointForArchive(-1, u32(t), v, u32(s.now)); err != nil {
+			c.Violationf("single-acceptance", fw.J{"layout": l, "now": s.now, "t": t}, "fresh update rejected: %v", err)
+			return
+		}
+		later := s.now + a0.Ret() + int64(r.Intn(int(a0.Step)*3+1))
+		if later-t < l.MaxRet() && later+2*l.MaxStep() < 1<<32 {
+			pre, _ := rawOf(s.db)
+			err := s.db.UpdatePointForArchive(-1, u32(t), v, u32(later))
+			post, _ := rawOf(s.db)
+			target := model.BestArchive(l, t, later)
+			c.Count("identical_update_resent_after_clock_advance", 1)
+			if err != nil {
+				c.Violationf("single-acceptance", fw.J{"layout": l, "now": later, "t": t, "err": err.Error()}, "the resent in-range update (age %d) was rejected: %v", later-t, err)
+				return
+			}
+			exp := append([]model.Slot(nil), pre[target]...)
+			model.RingWrite(exp, l.Archs[target], model.AlignDown(t, l.Archs[target].Step), math.Float64bits(float64(v)))
+			if d := model.EqualSlots(exp, post[target]); d >= 0 {
+				c.Violationf("single-routing", fw.J{"layout": l, "first_clock": s.now, "second_clock": later, "t": t, "target": target, "slot": d, "want": exp[d], "got": post[target][d]},
+					"update (t=%d) sent at clock %d and again, unchanged, at clock %d (age %d > finest retention): archive %d slot %d holds %v, want %v", t, s.now, later, later-t, target, d, post[target][d], exp[d])
+				return
+			}
+			s.now = later
+			s.raw = post
+		} else {
+			s.raw, _ = rawOf(s.db)
+		}
+	}
+	// ---- (a3) the file at this path is replaced (rename) by one with another layout: a handle opened afterwards
+	// accepts and routes by the layout of the file that is there now
+	if c.Index%5 == 2 && !c.Violated() {
+		if !c03Replaced(c, l, s.now) {
+			return
 		}
 	}
 
@@ -394,4 +437,63 @@ func (c03) Run(c *fw.Ctx) {
 	if c.Index < 64 {
 		c.Sample(fw.J{"layout": l.String(), "clock": now, "single_ages": ages, "ops": summarizeOps(ops, 8)})
 	}
+}
+
+func c03Replaced(c *fw.Ctx, l1 model.Layout, now int64) bool {
+	r := c.Rng
+	p := joinTmp(c.TmpDir(), "replaced.wsp")
+	db, err := createFile(p, l1)
+	if err != nil {
+		panic(err)
+	}
+	db.UpdatePointForArchive(-1, u32(now), 1, u32(now))
+	db.Sync()
+	db.Close()
+	if h, err := wt.Open(p); err == nil { // the path has been opened before in this process
+		h.Close()
+	}
+	// another layout: finest step kept, retentions stretched
+	l2 := model.Layout{Method: l1.Method, Xff: l1.Xff}
+	for _, a := range l1.Archs {
+		l2.Archs = append(l2.Archs, model.Arch{Step: a.Step, Points: a.Points*2 + 1})
+	}
+	if v, _ := model.ValidLayout(l2.Archs); v != model.Valid || now < l2.MaxRet()+2*l2.MaxStep() {
+		return true
+	}
+	tmp := p + ".new"
+	db2, err := createFile(tmp, l2)
+	if err != nil {
+		return true
+	}
+	db2.Sync()
+	db2.Close()
+	if err := os.Rename(tmp, p); err != nil {
+		panic(err)
+	}
+	h, err := wt.Open(p)
+	if err != nil {
+		c.Violationf("open-failed", fw.J{"err": err.Error()}, "Open of the replacing file failed: %v", err)
+		return false
+	}
+	defer h.Close()
+	c.Count("files_replaced_by_another_layout", 1)
+	if int64(h.Header().MaxRetention()) != l2.MaxRet() || len(h.ArchiveInfoList()) != len(l2.Archs) || h.ArchiveInfoList()[0].NumberOfPoints() != l2.Archs[0].Points {
+		c.Violationf("handle-uses-replaced-files-layout", fw.J{"old": l1.String(), "new": l2.String(), "handle": h.Header().String()}, "a handle opened after the file was replaced reports the layout %s, the file has %s", h.Header().String(), l2.String())
+		return false
+	}
+	// an age between the old and the new maximum retention is in range now
+	age := l1.MaxRet() + r.Int63n(l2.MaxRet()-l1.MaxRet())
+	t := now - age
+	if err := h.UpdatePointForArchive(-1, u32(t), 5.5, u32(now)); err != nil {
+		c.Violationf("single-acceptance", fw.J{"old": l1.String(), "new": l2.String(), "age": age, "err": err.Error()}, "after the file was replaced (maximum retention %d -> %d) a point of age %d was rejected: %v", l1.MaxRet(), l2.MaxRet(), age, err)
+		return false
+	}
+	raw, _ := rawOf(h)
+	target := model.BestArchive(l2, t, now)
+	idx := model.SlotIndex(raw[target][0].T, model.AlignDown(t, l2.Archs[target].Step), l2.Archs[target])
+	if int64(raw[target][idx].T) != model.AlignDown(t, l2.Archs[target].Step) || math.Float64frombits(raw[target][idx].Bits) != 5.5 {
+		c.Violationf("single-routing", fw.J{"old": l1.String(), "new": l2.String(), "age": age, "target": target}, "after the file was replaced a point of age %d is not in archive %d of the new layout", age, target)
+		return false
+	}
+	return true
 }
